@@ -49,9 +49,10 @@ def run(run):
     run.assumptions += [
         "the model cannot exhibit: TIME_WAIT / SO_REUSEADDR effects, a listener that is bound but whose accept loop is "
         "wedged, spontaneous listener death between two observations, address aliasing (':8080' vs '127.0.0.1:8080'), ':0'",
-        "C12_running is stated for the states in which Run() has not yet begun stopServer; the window in which the "
-        "state machine still reports Running while Run() shuts the server down (Stop()/cancel arriving during a Reload) "
-        "is exhibited by C12_running_refuted and reported as a finding"]
+        "C12_running holds in every Running state since /repo a31573a (shutdown takes r.mutex before Transition(Stopping)); the "
+        "old window (Stop()/cancel during a Reload) is kept as C12_running_refuted_legacy / C12_witness_repaired and as a corpus "
+        "regression",
+        "C12_running_observable_own assumes mux_sound (the ServeMux refuses a repeated pattern)"]
 
 
 def replay(path):
